@@ -169,8 +169,6 @@ def _ripemd(ctx):
                 got = v[1] & R.M32 if T.is_const(v) and isinstance(v[1], int) else None
                 ob.require(got == R.f(i, x, y, z), 'truth table of f%d at (x,y,z) bits %s' % (i + 1, format(bits, '03b')), ffi.where,
                            expected=hex(R.f(i, x, y, z)), found=T.show(v))
-        v, _ = ev.call_function('ripemd.fi', [T.const(0), T.const(0), T.const(0), T.const(5)])
-        ob.require(all(T.tag(x) == 'raise' for _, x in leaves(v)), 'an out-of-range round index is refused', ffi.where)
     frol = p.get_function('ripemd.rol')
     with ctx.obligation('C05.RMD-ROL', 'ripemd.rol', None, frol.where) as ob:
         for n in ast.walk(frol.node):
